@@ -604,10 +604,16 @@ def check_c10(args):
                      "with_known_deviation": sum(1 for s in scheds if s["kf"])})
         take = scheds if len(scheds) <= (6000 if big else 220) else sample(scheds, 6000 if big else 220, seed)
         all_cases += replay(v, pid, cfgobj, take, seed, stats)
+        # DML-only programs are also run under seeded random gated schedules (the DDL races of the other programs
+        # are attributed through the specification's path, which a random schedule does not follow)
+        if not any(st["k"] in ("ct", "dt") for p in cfgobj.prog.values() for st in p):
+            replay_random(v, pid, cfgobj, 400 if big else 50, seed, stats)
     rc = v.finish()
     write_evidence(pid, tier, seed, "model_checking", {
         "states": sum(r["distinct"] for r in mc_runs), "transitions": sum(r["generated"] for r in mc_runs),
-        "traces_validated_against_impl": stats["replayed"], "evaluations": stats["replayed"],
+        "traces_validated_against_impl": stats["replayed"] + stats.get("random_schedules", 0),
+        "evaluations": stats["replayed"] + stats.get("random_schedules", 0),
+        "random_gated_schedules": stats.get("random_schedules", 0),
         "distinct_nontrivial": len(stats["nontrivial"]),
         "rule": "2-3 sessions with DDL (same names), DML and queries; schedules = one TLC path into every "
                 "quiescent state of Secondary.tla (faithful reading: the listed deviations switched on); "
